@@ -335,7 +335,7 @@ def doc(r, depth=3, sc=scalar):
 
 # hostile scalars (C07, C13, C15): castable / uncastable strings, zeros, %-strings
 CAST_STRS = ["true", "3", "True", "TRUE", "false", "False", "FALSE", "-12", " 7 ", "0",
-             "none", "abc", "", "1.5", "٣x", "50%", "tRuE", "1e3", "٣", " true", "False\n", "TRUE ", "\tfalse"]
+             "none", "abc", "", "1.5", "٣x", "50%", "tRuE", "1e3", "٣", " true", "False\n", "TRUE ", "\tfalse", "falſe", "FALſE"]
 HOSTILE = [0, 0.0, False, None, 1, -1, 2.5, True, 12]
 
 
@@ -557,6 +557,12 @@ def tree(r, kinds=("value",), mode="any", depth=3, null_p=10, meaningful=False, 
         # a condition combined with ITSELF: both operands are one and the same object
         sub = tree(r, kinds, mode, depth - 1, 0, meaningful, names, jsonable)
         return Op(r.choice(["xor", "and", "or", "xor"]), sub, sub, True)
+    if depth >= 2 and r.pct() < 5:
+        # one COMBINATION occurring at two places of the tree (in a spec: one mapping object used twice)
+        sub = tree(r, kinds, mode, depth - 1, 0, meaningful, names, jsonable)
+        if isinstance(sub, Op):
+            other = leaf(r, kinds, mode, meaningful, names, jsonable)
+            return Op(r.choice(["and", "or", "xor"]), sub, Op(r.choice(["and", "or", "xor"]), other, sub))
     return Op(
         r.choice(["and", "or", "xor"]),
         tree(r, kinds, mode, depth - 1, null_p, meaningful, names, jsonable),
